@@ -114,6 +114,8 @@ def run_shard(check, tier, seed, shard, nshards, budget_s, with_coverage):
         'violations': [], 'truncated': False, 'exhausted_generator': False,
         'inconclusive': None, 'coverage': None, 'watchdog': [],
     }
+    res.update({'tag_pairs': Counter(), 'tag_solo': Counter(), 'pair_cases': 0})
+    required = set(check.REQUIRED_TAGS)
     _limit_memory()
     cov = _EARLY_COV if with_coverage else None
     t0 = time.monotonic()
@@ -169,6 +171,14 @@ def run_shard(check, tier, seed, shard, nshards, budget_s, with_coverage):
             res['evaluations'] += 1
             for t in out.tags:
                 res['tags'][t] += 1
+            if res['evaluations'] <= 200000:
+                # which REQUIRED classes met in one case (evidence: classes that are both frequent and never met)
+                req = sorted(set(out.tags) & required)
+                res['pair_cases'] += 1
+                for a_ in range(len(req)):
+                    res['tag_solo'][req[a_]] += 1
+                    for b_ in range(a_ + 1, len(req)):
+                        res['tag_pairs'][req[a_] + ' || ' + req[b_]] += 1
             res['observed'].update(out.observed)
             if out.discarded:
                 res['discarded'][out.discarded] += 1
@@ -246,9 +256,13 @@ def merge(results):
         'discarded': Counter(), 'samples': [], 'known': Counter(), 'known_witness': {},
         'violations': [], 'truncated': False, 'exhausted_generator': True,
         'inconclusive': None, 'coverage': None, 'wall_s': 0.0, 'extra': {}, 'watchdog': [],
+        'tag_pairs': Counter(), 'tag_solo': Counter(), 'pair_cases': 0,
     }
     for r in results:
         m['evaluations'] += r['evaluations']
+        m['tag_pairs'].update(r.get('tag_pairs') or {})
+        m['tag_solo'].update(r.get('tag_solo') or {})
+        m['pair_cases'] += r.get('pair_cases', 0)
         m['distinct'] |= set(r['distinct'])
         m['tags'].update(r['tags'])
         m['observed'].update(r['observed'])
@@ -279,8 +293,8 @@ def merge(results):
 def dump_result(res, path):
     r = dict(res)
     r['distinct'] = sorted(r['distinct'])
-    for k in ('tags', 'observed', 'discarded', 'known'):
-        r[k] = dict(r[k])
+    for k in ('tags', 'observed', 'discarded', 'known', 'tag_pairs', 'tag_solo'):
+        r[k] = dict(r.get(k) or {})
     os.makedirs(os.path.dirname(path), exist_ok=True)
     with open(path, 'w') as f:
         json.dump(r, f)
@@ -290,8 +304,8 @@ def load_result(path):
     with open(path) as f:
         r = json.load(f)
     r['distinct'] = set(r['distinct'])
-    for k in ('tags', 'observed', 'discarded', 'known'):
-        r[k] = Counter(r[k])
+    for k in ('tags', 'observed', 'discarded', 'known', 'tag_pairs', 'tag_solo'):
+        r[k] = Counter(r.get(k) or {})
     return r
 
 
@@ -313,6 +327,18 @@ def write_evidence(check, tier, seed, res, wall, verdict):
         'anchor_line_coverage': res['coverage'],
         'cases_set_aside_by_the_watchdog': res.get('watchdog', [])[:5],
     }
+    # required classes that are each frequent but were never seen in the SAME case: exclusive by construction (two modes, two
+    # codecs) - or a combination no run drives (DESIGN.md section 10, round l: the generator coupling audit)
+    n_ = res.get('pair_cases') or 0
+    solo, pairs = res.get('tag_solo') or {}, res.get('tag_pairs') or {}
+    never = []
+    names = sorted(solo)
+    for i_, a_ in enumerate(names):
+        for b_ in names[i_ + 1:]:
+            if n_ and solo[a_] * solo[b_] / n_ >= 25 and not pairs.get(a_ + ' || ' + b_):
+                never.append([a_, b_, solo[a_], solo[b_]])
+    never.sort(key=lambda e: -e[2] * e[3])
+    cov['required_classes_frequent_but_never_in_the_same_case'] = {'cases_examined': n_, 'pairs': never[:60], 'pairs_total': len(never)}
     cov.update(res.get('extra') or {})
     ev = {
         'property_id': check.ID, 'tier': tier, 'seed': seed, 'level': check.LEVEL,
